@@ -9,6 +9,7 @@ import (
 	"verif/vs/c04"
 	"verif/vs/c06"
 	"verif/vs/c07"
+	"verif/vs/c10"
 	"verif/vs/c11"
 	"verif/vs/c12"
 	"verif/vs/c17"
@@ -20,6 +21,7 @@ var checks = map[string]*run.Check{
 	"C04": c04.Check,
 	"C06": c06.Check,
 	"C07": c07.Check,
+	"C10": c10.Check,
 	"C11": c11.Check,
 	"C12": c12.Check,
 	"C17": c17.Check,
